@@ -1209,9 +1209,10 @@ class Executor:
             i = len(st.inputs)
             fair = False
             if forced or len([c for c in cand]) > 1 or (cand and cand[0][0] != cur):
-                if not cand:
+                if forced and not [c for c in cand if c[1] in ('run', 'ready', 'timeout')]:
+                    # same verdict as in exploration: a spurious wake-up never rescues a blocked system
                     if all(t.status == 'done' for t in st.threads): raise PathEnd('done-all')
-                    self.violation(st, 'deadlock', 'all live threads are blocked: ' + ', '.join('%s:%s' % (t.name, t.status) for t in st.threads))
+                    self.violation(st, 'deadlock', 'all live threads are blocked: ' + ', '.join('%s:%s in %s' % (t.name[:24], t.status, self._thread_where(t)) for t in st.threads if t.status != 'done'))
                 if not forced:
                     rs = st.ghost.get('run_streak', (cur, 0))
                     rs = (cur, rs[1] + 1) if rs[0] == cur else (cur, 1)
